@@ -149,3 +149,68 @@ def test_accessors_report_a_memoised_value(monkeypatch):
     monkeypatch.setattr(mt.RunningOrder, 'completed', property(memo))
     f, _ = run(HMixed(kinds=('RunningOrderEnd', 'ReadyToAir'), max_list=1, layouts=('before',), init_shapes=[('A',)]), [M.mon_completion])
     assert any('not-completed' in k for k in f), list(f)
+
+
+def test_live_third_step_reports_a_cache_made_stale_by_the_second_message(monkeypatch):
+    """A position cache filled by a first roStorySend and not refreshed after a count-preserving move only
+    shows on a third message on the same live object: the one- and two-message monitors stay silent."""
+    mt = ns.mt
+    orig = mt.StorySend.merge
+
+    def cached(self, ro):
+        story_id = self.story.id
+        cache = ro.__dict__.setdefault('_test_pos', {})
+        n = len(ro.base_tag)
+        if cache.get('n') != n or cache.get('base') is not ro.base_tag:
+            cache.clear()
+            cache.update(n=n, base=ro.base_tag, pos={(c.findtext('storyID')): i for i, c in enumerate(ro.base_tag) if c.tag == 'story'})
+        i = cache['pos'].get(story_id)
+        if i is None:
+            return orig(self, ro)
+        new = copy.deepcopy(self.story.xml)
+        ro.base_tag.remove(ro.base_tag[i])
+        ro.base_tag.insert(i, new)
+        return ro
+    monkeypatch.setattr(mt.StorySend, 'merge', cached)
+    shapes = [('AB', 'A', 'C')]
+    first = HMixed(max_list=1, story_L=1, meta_subsets=1, layouts=('before',), init_shapes=shapes, kinds=('StorySend',))
+    second = HMixed(max_list=1, story_L=1, meta_subsets=1, kinds=('StoryMove', 'EAStorySwap'))
+    third = HMixed(max_list=1, story_L=1, meta_subsets=1, kinds=('StorySend',))
+    f1, _ = run(first, [M.mon_frame])
+    assert f1 == {}, list(f1)[:3]
+    f2, _ = run(first, [M.LiveSecondStep([M.mon_frame], third, first_per_kind=3)])
+    assert f2 == {}, list(f2)[:3]
+    f3, res = run(first, [M.LiveThirdStep([M.mon_frame], second, third, first_per_kind=3, second_per_kind=3, third_per_kind=None)])
+    assert res.extra['live_third_steps'] > 0
+    assert any('collateral' in k for k in f3), list(f3)
+
+
+def test_unchanged_on_raise_reports_a_rollback_that_only_lives_in_add(monkeypatch):
+    """`ro + msg` restores the running order after a failed merge, msg.merge(ro) does not."""
+    mt = ns.mt
+    orig_add = mt.RunningOrder.__add__
+
+    def partial(self, ro):
+        story, _ = mt.find_child(parent=ro.base_tag, child_tag='story', id=self.story.id)
+        if story is None:
+            raise ns.exc.MosMergeError('story not found')
+        for it in self.items:
+            node, _ = mt.find_child(parent=story, child_tag='item', id=it.id)
+            if node is None:
+                raise ns.exc.MosMergeError('item not found')
+            story.remove(node)
+        return ro
+
+    def add(self, other):
+        keep = copy.deepcopy(self.base_tag)
+        try:
+            return orig_add(self, other)
+        except ns.exc.MosMergeError:
+            self.base_tag[:] = list(keep)
+            raise
+    monkeypatch.setattr(mt.ItemDelete, 'merge', partial)
+    monkeypatch.setattr(mt.RunningOrder, '__add__', add)
+    f, res = run(HItem(kinds=('ItemDelete',), **SMALL_I), [M.mon_unchanged_on_raise])
+    assert res.extra['raising_transitions_repeated_through_msg.merge'] > 0
+    assert any('msg.merge:mutated-before-raise' in k for k in f), list(f)
+    assert not any('msg.merge' not in k for k in f), [k for k in f if 'msg.merge' not in k][:3]
